@@ -1,4 +1,3 @@
-import QcoVerif.Lemmas.BuilderSrc
 import QcoVerif.Model.Builder
 import QcoVerif.Generated.CopyTable
 import QcoVerif.Lemmas.CopyGraph
@@ -439,29 +438,5 @@ example : NestedOk nxWorld 3 0 ∧ nxWorld.identKeys = false ∧ (nxWorld.op 1).
     inGraph (nxWorld.op 0).graph 1 = true ∧ (nxWorld.lnk (nxWorld.op 5).link).rel = .js :=
   ⟨nxWorld_nestedOk, nxWorld_real, by rw [nxWorld_eq]; rfl, by rw [nxWorld_eq]; rfl, by rw [nxWorld_eq]; rfl⟩
 
-
-/-! ### tie to the SOURCE TEXT of the builder (DESIGN.md §2.3b; proofs in Lemmas/BuilderSrc.lean)
-
-`CircuitCompositeOperation.copy` and `.add`.  The functions act on objects: the fragment records such effects (`Py.callEffects`) instead of executing them. -/
-
-section BuilderSourceTie
-open Qco.Py Qco.Gen.PySrc Qco.BuilderSrc
-
-/-- **`CircuitCompositeOperation.copy`**: a new composite (link copied through the lookup, SAME repetition strategy); per node in listing order: copy through the same lookup, record `lookup[operation] = copy`, `add` the copy — `World.copyObj`. -/
-theorem composite_copy_effects_match_source (nodes : List Nat) :
-    callEffects builderEnv Composite_copy [cpSelf nodes, cpLookup] =
-      nodes.flatMap (fun n => [Val.tuple [.str "setitem", cpLookup, cpOp n, cpCopy n],
-                               Val.tuple [.str "call", cpResult, .str "add", cpCopy n]]) ∧
-    callFn builderEnv Composite_copy [cpSelf nodes, cpLookup] = cpResult :=
-  BuilderSrc.composite_copy_matches_source nodes
-
-/-- `CircuitCompositeOperation.add`: the graph attribute is replaced by what `add_to_graph(graph, operation)` returns. -/
-theorem add_matches_source (g op : Val) (hg : g = .obj "Graph" 2 []) (hop : op = .obj "Operation" 7 []) :
-    callEffects builderEnv Composite_add [.obj "CircuitCompositeOperation" 1 [("_circuit_graph", g)], op] =
-      [Val.tuple [.str "setattr", .obj "CircuitCompositeOperation" 1 [("_circuit_graph", g)], .str "_circuit_graph",
-        .tuple [.str "CircuitGraphBranch.add_to_graph", .tuple [.str "graph", g], .tuple [.str "operation", op]]]] :=
-  BuilderSrc.add_matches_source g op hg hop
-
-end BuilderSourceTie
 
 end Qco.C05
